@@ -169,10 +169,26 @@ Definition c07_ok (q : request) (o : xobs) : bool :=
 
 (* ---- C08: after an external cancellation at most one further attempt starts, and the execution does
         not outlive the step that was in progress (function invocation) when the cancellation fired *)
+(* the error handed to the caller names the cause: an error of one of the three cancellation kinds is the kind of the
+   source that was active (the only source: stacks with a Timeout are not cancelled from outside as well) *)
+Definition cancel_kind (e : err) : bool :=
+  match e with ECtxCanceled | ECtxDeadline | EExecCanceled => true | _ => false end.
+Definition same_cancel_kind (a b : err) : bool :=
+  match a, b with
+  | ECtxCanceled, ECtxCanceled | ECtxDeadline, ECtxDeadline | EExecCanceled, EExecCanceled => true
+  | _, _ => false
+  end.
+Definition cause_named (src : err) (out : outcome) : bool :=
+  match snd out with
+  | Some e => if cancel_kind e then same_cancel_kind e src else true
+  | None => true
+  end.
+
 Definition c08_ok (q : request) (o : xobs) : bool :=
   match q_ext q with
-  | Some (dt, _) =>
+  | Some (dt, src) =>
       let tc := x_start o + dt in
+      cause_named src (x_out o) &&
       if x_end o <? tc then true
       else
         (Z.of_nat (length (filter (fun e => kind_is KFnStart e && (tc <? e_time e)) (x_events o))) <=? 1)
